@@ -221,9 +221,11 @@ package filters
 //@ assigns alloc S$Val, alloc M$has$Val$Bool, alloc M$val$Val$Bool
 //@ loop 1 invariant fresh: freshOrNil(result) && sameold("S$Val")
 
+// split: trailing empty pieces are dropped (the result never ends with "")
 //@ func filters.splitFilter
 //@ props C01 C16
 //@ panics nothing
+//@ ensures noTrailingEmpty: is(result, []string) && (len(as(result, []string)) == 0 || as(result, []string)[len(as(result, []string))-1] != "")
 
 //@ func filters.firstWords
 //@ overflow
